@@ -1,6 +1,8 @@
+import Hannibal.Props.C17R
 import Hannibal.Props.C17NCurrent
 import Hannibal.Props.C17Current
 #print axioms Hannibal.C17_holds
 #print axioms Hannibal.C17_current
 #print axioms Hannibal.C17n_holds
 #print axioms Hannibal.C17n_current
+#print axioms Hannibal.C17r_holds
